@@ -198,6 +198,8 @@ func checkC06(r *Report) {
 	devInertRule(r, p, "C06.e/DEV-INERT")
 	climbReservesRule(r, p, "C06.f/CLIMB-RESERVES", fn)
 	slotFreeRule(r, p, "C06.g/SLOT-FREE", fn)
+	nKL := keyLiteralCompleteRule(r, p, "C06.h/KEY-LITERAL-COMPLETE", "resolve", "resolve/npm", "resolve/maven", "resolve/pypi", "resolve/schema")
+	r.floor("C06.h/KEY-LITERAL-COMPLETE", "keyed resolve.PackageKey literals in the resolvers and clients", nKL, 5)
 	r.Stats["loop_blocks"] = len(l.body)
 }
 
@@ -474,8 +476,38 @@ func incompatibleFirstRule(r *Report, p *Prog, rule string, fn *ssa.Function, l 
 	// resolver's private key types: "resolved" is a set keyed by a struct
 	// (map[K]bool), "known" maps the resolver's own struct key to a resolve.NodeID.
 	const resolvedSet, knownNodes = "set", "nodes"
+	var derivesAll func(v ssa.Value, depth int, pred func(ssa.Value) bool) bool
+	derivesAll = func(v ssa.Value, depth int, pred func(ssa.Value) bool) bool {
+		// like condDerives, but a value merged from several sources (a phi)
+		// derives from the table only if EVERY source does
+		if depth > 8 || v == nil {
+			return false
+		}
+		if pred(v) {
+			return true
+		}
+		switch x := v.(type) {
+		case *ssa.Extract:
+			return derivesAll(x.Tuple, depth+1, pred)
+		case *ssa.UnOp:
+			return derivesAll(x.X, depth+1, pred)
+		case *ssa.Phi:
+			for _, e := range x.Edges {
+				if !derivesAll(e, depth+1, pred) {
+					return false
+				}
+			}
+			return len(x.Edges) > 0
+		}
+		return false
+	}
+	var strict bool
 	lookupOn := func(c ssa.Value, kind string) bool {
-		return condDerives(c, 0, func(v ssa.Value) bool {
+		derive := condDerives
+		if strict {
+			derive = derivesAll
+		}
+		return derive(c, 0, func(v ssa.Value) bool {
 			var lk *ssa.Lookup
 			switch x := v.(type) {
 			case *ssa.Lookup:
@@ -538,9 +570,11 @@ func incompatibleFirstRule(r *Report, p *Prog, rule string, fn *ssa.Function, l 
 			exempt := false
 			for d := range l.body {
 				ifi, ok := d.Instrs[len(d.Instrs)-1].(*ssa.If)
+				strict = true
 				if ok && lookupOn(ifi.Cond, knownNodes) && d.Succs[0].Dominates(b) && len(d.Succs[0].Preds) == 1 {
 					exempt = true
 				}
+				strict = false
 			}
 			if exempt {
 				continue
